@@ -155,6 +155,58 @@ def _helper_call(stmt: ast.stmt):
     return None, None
 
 
+class _Hoist(ast.NodeTransformer):
+    """Replace helper calls at unconditionally evaluated positions of one simple statement by temporaries."""
+
+    def __init__(self, helpers, stack, keep):
+        self.helpers, self.stack, self.keep = helpers, stack, keep
+        self.pre: List[ast.stmt] = []
+
+    def _skip(self, node):
+        return node
+
+    visit_Lambda = visit_ListComp = visit_SetComp = visit_DictComp = visit_GeneratorExp = _skip
+
+    def visit_IfExp(self, node):
+        node.test = self.visit(node.test)
+        return node
+
+    def visit_BoolOp(self, node):
+        node.values[0] = self.visit(node.values[0])
+        return node
+
+    def visit_Call(self, node):
+        node = self.generic_visit(node)
+        if node is not self.keep and isinstance(node.func, ast.Name) and node.func.id in self.helpers \
+                and node.func.id not in self.stack:
+            name = f"HOIST__{node.func.id.strip('_')}{next(_COUNTER)}"
+            assign = ast.Assign(targets=[ast.Name(id=name, ctx=ast.Store())], value=node)
+            ast.copy_location(assign, node)
+            ast.fix_missing_locations(assign)
+            self.pre.append(assign)
+            return ast.copy_location(ast.Name(id=name, ctx=ast.Load()), node)
+        return node
+
+
+def _hoist(stmt: ast.stmt, helpers, stack) -> List[ast.stmt]:
+    """Helper calls buried in the expressions of a simple statement (or an if-test) -> preceding assignments."""
+    if isinstance(stmt, (ast.Assign, ast.AugAssign, ast.AnnAssign, ast.Expr, ast.Return)):
+        call, _kind = _helper_call(stmt)
+        keep = call if call is not None and isinstance(call.func, ast.Name) and call.func.id in helpers else None
+        hoist = _Hoist(helpers, stack, keep)
+        for field, value in list(ast.iter_fields(stmt)):
+            if isinstance(value, ast.expr):
+                setattr(stmt, field, hoist.visit(value))
+            elif isinstance(value, list):
+                setattr(stmt, field, [hoist.visit(v) if isinstance(v, ast.expr) else v for v in value])
+        return hoist.pre
+    if isinstance(stmt, ast.If):
+        hoist = _Hoist(helpers, stack, None)
+        stmt.test = hoist.visit(stmt.test)
+        return hoist.pre
+    return []
+
+
 def inlinable_helpers(tree: ast.Module) -> Dict[str, ast.FunctionDef]:
     out = {}
     for node in tree.body:
@@ -167,6 +219,10 @@ def inlinable_helpers(tree: ast.Module) -> Dict[str, ast.FunctionDef]:
 def inline_block(stmts: List[ast.stmt], helpers, stack, used: Set[str], depth: int) -> List[ast.stmt]:
     out: List[ast.stmt] = []
     for stmt in stmts:
+        if depth < MAX_DEPTH:
+            hoisted_pre = _hoist(stmt, helpers, stack)
+            if hoisted_pre:
+                out.extend(inline_block(hoisted_pre, helpers, stack, used, depth))
         call, kind = _helper_call(stmt)
         helper = None
         if call is not None and isinstance(call.func, ast.Name) and call.func.id in helpers \
@@ -228,6 +284,14 @@ def inline_block(stmts: List[ast.stmt], helpers, stack, used: Set[str], depth: i
 
 def inline_function(func: ast.FunctionDef, helpers: Dict[str, ast.FunctionDef]):
     """Returns (new FunctionDef or the original, set of helper names that were inlined)."""
+    nested = {}
+    for node in func.body:
+        if isinstance(node, ast.FunctionDef) and not _has_bad_constructs(node) and _returns_in_tail_position(node.body):
+            nested[node.name] = node  # a closure defined at the top level of this function and called in it
+    if nested:
+        rebound = {n.id for n in ast.walk(func) if isinstance(n, ast.Name) and isinstance(n.ctx, ast.Store)}
+        nested = {k: v for k, v in nested.items() if k not in rebound}
+        helpers = {**helpers, **nested}
     if not helpers:
         return func, set()
     names = {n.func.id for n in ast.walk(func) if isinstance(n, ast.Call) and isinstance(n.func, ast.Name)}
